@@ -10,12 +10,11 @@ import math
 import hypothesis.strategies as st
 import torch
 
-from ..c18_lib import (BOXES, DEPOT_ALL, DEPOT_BOUNDED, INF, LOC_ALL, LOC_BOUNDED, SQ2, Judge, coord_extent, coord_kwargs,
-                       coord_params, defaults_of, dist0, dist_kwargs, dist_range, first_bad, is_int, loc_dist,
-                       needs_two_points, q, repo_call, seed_all, sizes)
+from ..c18_lib import (INF, SQ2, Judge, coord_extent, coord_kwargs, coord_params, defaults_of, dist0, dist_kwargs, dist_range,
+                       first_bad, is_int, loc_dist, needs_two_points, q, repo_call, seed_all, sizes)
 from ..envs import SPECS, py_instance
 from ..episode import MODES, run_episode
-from ..runner import SkipCase, Sub
+from ..runner import Sub
 
 PROPERTY = "C18"
 RULE = (
@@ -45,6 +44,10 @@ ASSUMPTIONS = [
     "float tolerances: 1e-6 relative on coordinate ranges and the ATSP triangle inequality, 1e-4 absolute (scaled units) on time-window "
     "reachability / return predicates, 1e-4 on integrality of demand*capacity",
     "episodes of large batches run on a prefix of the rows (rows*bound <= ~2500 steps); one FFSP env object per episode",
+    "MDCPDP: env start_mode kept at 'order' (start_mode='random' is env behaviour, outside the generator property); when the "
+    "generated capacity is [B,1] with num_depot > 1 (F5) the solvable clause is judged with capacity expanded to [B,num_depot]",
+    "mTSP num_loc=1 and SVRP single-technician lists are generated and reported under their own boundary signatures "
+    "(mtsp|single_loc|*, svrp|single_tech|*)",
 ]
 TIME_CAP = {"quick": 400, "thorough": 3000}
 
@@ -128,10 +131,6 @@ class G:
 
     def bound(self, p, row, gen):
         raise NotImplementedError
-
-
-def n_of(p):
-    return p["num_loc"]
 
 
 def check_coords(J, td, p, B, n, spies, depot=True, loc_key="locs", scale=1.0):
@@ -271,10 +270,11 @@ def check_demand(J, td, p, B, n, key="demand", shape=None):
     cap = p.get("capacity") or default_capacity(n)
     dem = J.shape(td, key, shape or (B, n), "float")
     J.finite(dem, key)
+    J.ctx.event("capacity:" + ("override" if p.get("capacity") else "table" if n in CAP_TABLE else "closest"))
     lo, hi = p.get("min_demand", 1), p.get("max_demand", 10)
     units = dem.double() * cap
     J.ok(is_int(units), "demand_not_integer_over_capacity", f"demand*capacity is not an integer (capacity {cap})",
-         {"first": first_bad(is_int(units))})
+         (lambda: {"first": first_bad(is_int(units))}))
     u = units.round()
     good = (u >= lo) & (u <= hi)
     J.ok(good, "demand_range", f"integer demand outside [{lo},{hi}] (capacity {cap}): min {float(u.min()) if u.numel() else None} "
@@ -358,6 +358,9 @@ class CVRPTW(CVRP):
         locs, dep = check_coords(J, td, p, B, n, spies, scale=(T if scaled else 1.0))
         check_demand(J, td, p, B, n)
         check_tw(J, td, locs, dep, B, n, T, scaled)
+        J.ctx.event("cvrptw:scaled" if scaled else "cvrptw:unscaled")
+        if T <= tw_precondition(p) + 3:
+            J.ctx.event("cvrptw:max_time_at_precondition")
 
 
 def check_tw(J, td, locs, dep, B, n, T, scaled):
@@ -374,18 +377,18 @@ def check_tw(J, td, locs, dep, B, n, T, scaled):
     J.ok(durd[:, 0] == 0, "depot_duration", "depot service duration is not 0")
     J.ok(twd >= 0, "negative_window", "negative time-window bound")
     s, e, du = twd[:, 1:, 0], twd[:, 1:, 1], durd[:, 1:]
-    J.ok(tw[..., 0] < tw[..., 1], "tw_not_ordered", "a time window has start >= end", {"first": first_bad(tw[..., 0] < tw[..., 1])})
+    J.ok(tw[..., 0] < tw[..., 1], "tw_not_ordered", "a time window has start >= end", (lambda: {"first": first_bad(tw[..., 0] < tw[..., 1])}))
     J.ok(is_int(s, 1e-3) & is_int(e, 1e-3), "tw_not_integer", "window bounds are not integer time units")
     reach = d <= e + tol
     J.ok(reach, "tw_unreachable", "customer cannot be reached from the depot before its window closes (d(0,i) > end_i)",
-         {"first": first_bad(reach)})
+         (lambda: {"first": first_bad(reach)}))
     back_e = e + du + d <= T + tol
     J.ok(back_e, "tw_end_no_return", "end_i + duration_i + d(i,0) > max_time (docstring: end bounded by duration and distance back)",
-         {"first": first_bad(back_e)})
+         (lambda: {"first": first_bad(back_e)}))
     back_s = s + du + d <= T + tol
-    J.ok(back_s, "tw_start_no_return", "start_i + duration_i + d(i,0) > max_time", {"first": first_bad(back_s)})
+    J.ok(back_s, "tw_start_no_return", "start_i + duration_i + d(i,0) > max_time", (lambda: {"first": first_bad(back_s)}))
     lower = s >= d.floor() - tol
-    J.ok(lower, "tw_start_before_travel", "window start below the (integer) travel time from the depot", {"first": first_bad(lower)})
+    J.ok(lower, "tw_start_before_travel", "window start below the (integer) travel time from the depot", (lambda: {"first": first_bad(lower)}))
 
 
 # --------------------------------------------------------------------------- OP
@@ -445,6 +448,9 @@ class OP(G):
         want = self.maxlen_tensor(p, B) if "max_length_list" in p else torch.full((B,), float(p.get("max_length") or default_maxlen(n)))
         J.ok(torch.equal(ml, want), "max_length_value", f"max_length {ml[:4].tolist()} != configured {want[:4].tolist()}")
         pt = p.get("prize_type", "dist")
+        J.ctx.event(f"op:prize_type={pt}")
+        J.ctx.event("op:max_length=" + ("tensor" if "max_length_list" in p else "scalar" if "max_length" in p else
+                                        ("table" if n in ML_TABLE else "closest")))
         J.finite(prize, f"prize|{pt}")
         if pt == "const":
             J.ok(prize == 1.0, "prize_range|const", "constant prizes are not 1")
@@ -751,7 +757,15 @@ class MTVRP(G):
         return {"check_solution": False}
 
     def check(self, J, td, p, kw, B, gen, spies):
-        check_mtvrp(J, td, p, B, spies)
+        has_o, has_tw, has_l, has_b = check_mtvrp(J, td, p, B, spies)
+        ctx = J.ctx
+        ctx.event(f"mtvrp:preset={p['variant_preset']}")
+        for nm, h in (("O", has_o), ("TW", has_tw), ("L", has_l), ("B", has_b)):
+            if bool(h.any()):
+                ctx.event(f"mtvrp:instances_with_{nm}")
+        want = PRESETS.get(p["variant_preset"]) if p.get("subsample", True) else None
+        if want is not None and "B" in want and not bool(has_b.all()):
+            ctx.event("mtvrp:B_preset_instance_without_backhaul(not flagged)")
 
     def bound(self, p, row, gen):
         return 2 * p["num_loc"] + 1
@@ -763,8 +777,10 @@ def check_mtvrp(J, td, p, B, spies):
                 "vehicle_capacity", "capacity_original", "open_route", "speed"])
     locs = J.shape(td, "locs", (B, n + 1, 2), "float")
     J.within(locs, p["min_loc"], p["max_loc"], "locs")
-    if "loc" in spies:
-        J.ok(len(spies["loc"].out) >= 1, "loc_sampler_ignored", "explicit loc_sampler object was never sampled")
+    if "loc" in spies and len(spies["loc"].out) < 1:
+        # observation only (DESIGN.md): MTVRPGenerator draws locations uniformly and ignores loc_sampler /
+        # loc_distribution; the emitted coordinates still respect [min_loc, max_loc], which is what C18 asserts
+        J.ctx.event("observation:mtvrp_loc_sampler_ignored")
     lh = J.shape(td, "demand_linehaul", (B, n + 1), "float")
     bh = J.shape(td, "demand_backhaul", (B, n + 1), "float")
     tw = J.shape(td, "time_windows", (B, n + 1, 2), "float")
@@ -787,7 +803,7 @@ def check_mtvrp(J, td, p, B, spies):
     J.ok(is_int(L) & is_int(Bk), "demand_not_integer_over_capacity", "demand*capacity is not an integer")
     L, Bk = L.round()[:, 1:], Bk.round()[:, 1:]
     one = (L > 0) ^ (Bk > 0)
-    J.ok(one, "linehaul_xor_backhaul", "a customer has both or neither of linehaul / backhaul demand", {"first": first_bad(one)})
+    J.ok(one, "linehaul_xor_backhaul", "a customer has both or neither of linehaul / backhaul demand", (lambda: {"first": first_bad(one)}))
     dl, dh = p.get("min_demand", 1), p.get("max_demand", 10)
     bl, bhh = p.get("min_backhaul", 1), p.get("max_backhaul", 10)
     in_b = (Bk == 0) | ((Bk >= bl) & (Bk <= bhh))
@@ -810,9 +826,9 @@ def check_mtvrp(J, td, p, B, spies):
         want = PRESETS[preset]
         for letter, has, nm in (("O", has_o, "open_route"), ("T", has_tw, "time_windows"), ("L", has_l, "distance_limit")):
             if letter in want:
-                J.ok(has, f"feature_missing|{nm}", f"preset {preset!r} instance lacks {nm}", {"first": first_bad(has)})
+                J.ok(has, f"feature_missing|{nm}", f"preset {preset!r} instance lacks {nm}", (lambda: {"first": first_bad(has)}))
             else:
-                J.ok(~has, f"feature_unrequested|{nm}", f"preset {preset!r} instance carries {nm}", {"first": first_bad(~has)})
+                J.ok(~has, f"feature_unrequested|{nm}", f"preset {preset!r} instance carries {nm}", (lambda: {"first": first_bad(~has)}))
         if "B" not in want:
             J.ok(~has_b, "feature_unrequested|backhaul", f"preset {preset!r} instance carries backhaul demand")
     elif preset == "single_feat" or (preset == "all" and p.get("use_combinations", True) is False):
@@ -839,12 +855,12 @@ def check_mtvrp(J, td, p, B, spies):
         J.within(en - st_, 0.18, 0.2, "tw_length", tol=1e-5, what="tw_length")
         J.within(sc, 0.15, 0.18, "service_time", tol=1e-5, what="service_range")
         reach = d_ <= st_ + tol
-        J.ok(reach, "tw_start_before_travel", "window opens before the customer can be reached from the depot", {"first": first_bad(reach)})
+        J.ok(reach, "tw_start_before_travel", "window opens before the customer can be reached from the depot", (lambda: {"first": first_bad(reach)}))
         J.ok(d_ < en, "tw_unreachable", "customer cannot be reached from the depot before its window closes")
         back = st_ + sc + d_ <= T + tol
-        J.ok(back, "tw_start_no_return", "start_i + service_i + d(i,0) > max_time", {"first": first_bad(back)})
+        J.ok(back, "tw_start_no_return", "start_i + service_i + d(i,0) > max_time", (lambda: {"first": first_bad(back)}))
         back_e = en + sc + d_ <= T + tol
-        J.ok(back_e, "tw_end_no_return", "end_i + service_i + d(i,0) > max_time", {"first": first_bad(back_e)})
+        J.ok(back_e, "tw_end_no_return", "end_i + service_i + d(i,0) > max_time", (lambda: {"first": first_bad(back_e)}))
     # ---- distance limit
     if bool(has_l.any()):
         want_l = float(p.get("distance_limit", 3.0))
@@ -1106,7 +1122,7 @@ class MCP(G):
         J.ok(is_int(mem) & (mem >= 0) & (mem <= ni), "membership_range", f"membership entries outside 0..{ni}")
         srt = mem.sort(-1).values
         rep = (srt[..., 1:] == srt[..., :-1]) & (srt[..., 1:] > 0)
-        J.ok(~rep, "membership_repeat", "an item is repeated inside a set", {"first": first_bad(~rep)})
+        J.ok(~rep, "membership_repeat", "an item is repeated inside a set", (lambda: {"first": first_bad(~rep)}))
         cnt = (mem > 0).sum(-1)
         J.ok((cnt >= 1) & (cnt <= p["max_size"]), "set_size_range", "a set is empty or larger than max_size")
         # items of a set are packed first: no zero before a non-zero entry is NOT documented -> not asserted
@@ -1163,7 +1179,7 @@ def execute(case, ctx):
     seed_all(seed)
     crash = getattr(g, "crash_sig", lambda p: None)(p)
     bs = B if seed % 2 else [B]  # Generator.__call__ accepts an int or a list
-    td = repo_call(ctx, crash or f"crash|generate|{g.name}", gen, bs)
+    td = repo_call(ctx, crash or f"crash|instance|{g.name}", gen, bs)
     J = Judge(ctx, g.name, case)
     J.ok(tuple(td.batch_size) == (B,), "batch_size", f"TensorDict batch_size {tuple(td.batch_size)} != ({B},)")
     g.check(J, td, p, kw, B, gen, spies)
@@ -1253,15 +1269,11 @@ def bulk_cases(tier):
         name = draw(st.sampled_from(["cvrp", "cvrptw", "cvrptw", "mtvrp", "mtvrp"]))
         g = GENS[name]
         p = draw(g.params(tier))
-        p["num_loc"] = draw(st.integers(1, 12))
-        if name == "mtvrp" and "capacity" not in p and False:
-            pass
+        p["num_loc"] = draw(st.integers(1, 10))
         for role in ("loc", "depot"):
             if role in p and p[role]["kind"] in ("spy", "gaussian_mixture", "mix_multi_distributions", "mix_distribution",
                                                  "normal", "exponential", "poisson"):
                 p[role] = {"kind": "default" if role == "loc" else "none"}
-        if "max_length_list" in p:
-            del p["max_length_list"]
         return {"gen": name, "p": p, "B": 100000 if tier == "quick" else 200000, "seed": draw(st.integers(0, 2 ** 31 - 1))}
     return s()
 
@@ -1284,10 +1296,8 @@ def execute_bulk(case, ctx):
     if len(nd) >= 2:
         ctx.nontriv()
     seed_all(case["seed"])
-    td = repo_call(ctx, f"crash|generate|{g.name}", gen, [B])
+    td = repo_call(ctx, f"crash|instance|{g.name}", gen, [B])
     g.check(Judge(ctx, g.name, case), td, p, kw, B, gen, spies)
-    if case["gen"] == "mtvrp":
-        pass
     ctx.sample({"gen": g.name, "p": p, "B": B})
 
 
